@@ -21,6 +21,13 @@ let show_obs (o : obs) : string =
     | OutWrite (n, e) -> Printf.sprintf "w%d:%d" (int_of_z n) (if e then 1 else 0) in
   Printf.sprintf "%s/%d/%d/%d" out (int_of_z o.o_status) (if o.o_written then 1 else 0) (int_of_z o.o_size)
 
+(* extraction re-validation: the model's observations as a Coq term (util.ml, checks/common.py vm_crosscheck) *)
+let coq_obs (o : obs) : string =
+  let out = match o.o_out with
+    | OutUnit -> "OutUnit" | OutPanic -> "OutPanic"
+    | OutWrite (n, e) -> Printf.sprintf "(OutWrite %s %s)" (coq_z n) (coq_bool e) in
+  Printf.sprintf "(mkObs %s %s %s %s)" out (coq_z o.o_status) (coq_bool o.o_written) (coq_z o.o_size)
+
 let () =
   let n = Stdlib.ref 0 and nops = Stdlib.ref 0 and mism = Stdlib.ref 0 in
   (try
@@ -32,6 +39,8 @@ let () =
          let opl = List.map parse_op (List.filter (fun x -> x <> "") (String.split_on_char ';' ops)) in
          nops := Stdlib.( ! ) nops + List.length opl;
          let model = String.concat ";" (List.map show_obs (observe init opl)) in
+         if vm_pick (Stdlib.( ! ) n) then
+           Printf.printf "VMCASE\t%s\t%s\n" ops (coq_list coq_obs (observe init opl));
          if model <> impl then begin
            Stdlib.incr mism;
            Printf.printf "MISMATCH\t%d\t%s\t%s\t%s\n" (Stdlib.( ! ) n) ops impl model
